@@ -18,6 +18,7 @@ import (
 )
 
 func noteCurrent(dir string, v any) {
+	beat(v)
 	b, _ := json.Marshal(v)
 	os.WriteFile(filepath.Join(dir, "current.json"), b, 0o644)
 }
